@@ -1,5 +1,5 @@
 (* C16 — bounds and alignment of the modelled address arithmetic (model/Layout.v). *)
-From Coq Require Import NArith List Bool Lia ZifyBool ZifyNat ZifyN.
+From Coq Require Import NArith ZArith List Bool Lia ZifyBool ZifyNat ZifyN.
 From GV Require Import model.Layout.
 Import ListNotations.
 Open Scope N_scope.
@@ -278,7 +278,7 @@ Proof. induction k as [|k IH]; intros start; cbn [nrange List.length]; [reflexiv
 Lemma ptr_ok_grow_last : forall rw done cur cur' p,
   b_res cur <= b_res cur' -> ptr_ok rw (done ++ [cur]) p -> ptr_ok rw (done ++ [cur']) p.
 Proof.
-  intros rw done cur cur' [i off] Hle [b [Hn Hb]]. cbn [fst snd] in *.
+  intros rw done cur cur' [i off] Hle [b [Hn Hb]]. unfold ptr_ok. cbn [fst snd] in *.
   destruct (Nat.lt_ge_cases i (List.length done)) as [Hlt|Hge].
   - rewrite nth_error_app1 in Hn by exact Hlt. exists b. rewrite nth_error_app1 by exact Hlt. auto.
   - rewrite nth_error_app2 in Hn by exact Hge. rewrite nth_error_app2 by exact Hge.
@@ -289,7 +289,7 @@ Qed.
 
 Lemma ptr_ok_extend : forall rw bs extra p, ptr_ok rw bs p -> ptr_ok rw (bs ++ extra) p.
 Proof.
-  intros rw bs extra [i off] [b [Hn Hb]]. cbn [fst snd] in *. exists b. split; [|exact Hb].
+  intros rw bs extra [i off] [b [Hn Hb]]. unfold ptr_ok. cbn [fst snd] in *. exists b. split; [|exact Hb].
   rewrite nth_error_app1; [exact Hn|]. apply nth_error_Some. rewrite Hn. discriminate.
 Qed.
 
@@ -380,21 +380,23 @@ Proof. vm_compute. reflexivity. Qed.
 Theorem prepare_append_zero_width_panics : forall fuel rc, prepare_append (S fuel) 0 rc [] 1 = PaPanic.
 Proof. intros fuel rc. reflexivity. Qed.
 
-Lemma pa_loop_zero_capacity : forall fuel rw done rem ptrs, rw <> 0 -> rem <> 0 ->
-  pa_loop fuel rw 0 done {| b_cap := rw * 0; b_res := 0 |} rem ptrs = PaDiverge.
+Lemma pa_loop_zero_capacity : forall fuel rw done cur rem ptrs, rw <> 0 -> rem <> 0 ->
+  b_cap cur = 0 -> b_res cur = 0 -> pa_loop fuel rw 0 done cur rem ptrs = PaDiverge.
 Proof.
-  induction fuel as [|f IH]; intros rw done rem ptrs Hrw Hrem; cbn [pa_loop]; [reflexivity|].
+  induction fuel as [|f IH]; intros rw done cur rem ptrs Hrw Hrem Hc Hr; cbn [pa_loop]; [reflexivity|].
   destruct (rem =? 0) eqn:E; [apply N.eqb_eq in E; contradiction|].
   unfold remaining_rows, num_rows. destruct (rw =? 0) eqn:E2; [apply N.eqb_eq in E2; contradiction|].
-  cbn [b_cap b_res]. rewrite N.mul_0_r. cbn [N.ltb N.compare N.sub N.div N.min N.to_nat nrange map N.mul].
-  replace (N.min (0 / rw) rem) with 0 by (rewrite N.div_0_l by exact Hrw; lia).
-  cbn [N.to_nat nrange map N.mul]. rewrite N.sub_0_r. rewrite E. rewrite app_nil_r.
-  replace ({| b_cap := 0; b_res := 0 + 0 |}) with ({| b_cap := rw * 0; b_res := 0 |}) by (rewrite N.mul_0_r; reflexivity).
-  rewrite <- (N.mul_0_r rw) at 2. apply IH; assumption.
+  rewrite Hc, Hr. change (0 <? 0) with false. cbv iota.
+  replace ((0 - 0) / rw) with 0 by (rewrite N.sub_diag, N.div_0_l; [reflexivity|exact Hrw]).
+  replace (N.min 0 rem) with 0 by lia.
+  rewrite N.sub_0_r, E. apply IH; [exact Hrw|exact Hrem|apply N.mul_0_r|reflexivity].
 Qed.
 Theorem prepare_append_zero_capacity_diverges : forall fuel rw rows, rw <> 0 -> rows <> 0 ->
   prepare_append fuel rw 0 [] rows = PaDiverge.
-Proof. intros fuel rw rows Hrw Hrows. unfold prepare_append. cbn [split_last]. apply pa_loop_zero_capacity; assumption. Qed.
+Proof.
+  intros fuel rw rows Hrw Hrows. unfold prepare_append. cbn [split_last].
+  apply pa_loop_zero_capacity; [exact Hrw|exact Hrows|apply N.mul_0_r|reflexivity].
+Qed.
 
 (* ---------------------------------------------------------------- string views *)
 Theorem string_view_inline_threshold : forall max_inline literal len,
@@ -424,3 +426,23 @@ Proof.
   intros hash offset cap k Hc. unfold offset_from_hash, inc_and_wrap.
   split; eapply mask_in_bounds; exact Hc.
 Qed.
+
+(* ---------------------------------------------------------------- the constants of the current source *)
+From GV Require gen.TablesLayout.
+
+(* MAX_INLINE_LEN, the literals `is_inline` / `is_reference` compare with, and the inline buffer length agree:
+   a view built by new_inline / new_reference is classified the same way by every reader, the inline bytes fit
+   their buffer, and only a view with len > threshold is ever dereferenced into a heap buffer *)
+Theorem src_string_view_threshold :
+  exists k, TablesLayout.max_inline_len = Some k /\ TablesLayout.is_inline_literal = Some k /\
+            TablesLayout.is_reference_literal = Some k /\ TablesLayout.inline_buffer_len = Some k /\
+  forall len,
+    (sv_is_inline k (sv_new k len) = true <-> len <= k) /\
+    (sv_is_inline k (sv_new k len) = true <-> exists l, sv_new k len = SInline l) /\
+    sv_len (sv_new k len) = len.
+Proof.
+  exists 12. repeat (split; [reflexivity|]). intros len. apply string_view_inline_threshold. reflexivity.
+Qed.
+
+Theorem src_row_index_width : TablesLayout.row_index_width = Some Layout.row_index_width.
+Proof. reflexivity. Qed.
